@@ -13,7 +13,7 @@ import json
 import os
 import re
 
-from .. import inline, core, coverage, emit, guards, vt, wiring
+from .. import inline, core, coverage, emit, guards, special, vt, wiring
 
 SMART_POINTERS = {'Box', 'Arc', 'Rc', 'Cow', 'Cell', 'RefCell', 'Mutex', 'RwLock'}
 
@@ -406,26 +406,43 @@ def t45(ctx, rep, T):
         struct = f.get('self_ty') or 'Language'
         site = {'file': f['file'], 'line': f['line']}
         base = f['params'][1]['name']
-        t = f['tail']
-        while isinstance(t, dict) and t.get('k') in ('var', 'try', 'some'):
-            t = t['v']
-        if isinstance(t, dict) and t.get('k') == 'call' and t.get('f') == 'Ok' and t.get('args'):
-            t = t['args'][0]
-            while isinstance(t, dict) and t.get('k') in ('var', 'try', 'some'):
-                t = t['v']
-        first_is_map = isinstance(t, dict) and t.get('k') == 'cond' and isinstance(t['c'], dict) and t['c'].get('k') == 'iflet' and \
-            re.search(rf'type_map\(\)\.get\({base}\)|type_mappings\.get\({base}\)', vt.show(t['c']['scrut']).replace(' ', '')) is not None
-        rep.check(first_is_map, 'T4', f'{be}:{f["name"]}:map-first', 'type map consulted before anything else', f"{be}: {f['qual']} does not start by looking `{base}` up in the type map — a configured mapping can be bypassed", site)
-        if first_is_map:
-            mapped = vt.show(vt.strip(t['t']))
-            rep.check('mapped' in mapped or 'Some' in mapped or '@' in mapped, 'T4', f'{be}:{f["name"]}:mapped-returned', 'mapped name returned', f"{be}: {f['qual']} finds a mapping but returns `{mapped[:60]}`", site)
+        # what the function yields when the base name is / is not a key of the type map (vlib/special.py, OptSpec): asked of the
+        # inlined view, so `if let` / `match` / `let-else` / early `return` spell the same function
+        G = ctx.x(f)
+
+        def is_lookup(v, base=base):
+            return v.get('k') == 'call' and v.get('f') == 'get' and v.get('recv') is not None and len(v.get('args', [])) == 1 and \
+                re.fullmatch(rf'&?\(?&?self\.(type_map\(\)|type_mappings)\)?\.get\(&?{re.escape(base)}\)', vt.show(v).replace(' ', '')) is not None
+
+        def plain(v):
+            v = vt.unvar(v)
+            if isinstance(v, dict) and v.get('k') == 'call' and v.get('recv') is None and str(v.get('f')) == 'Ok' and v.get('args'):
+                v = vt.unvar(v['args'][0])
+            while isinstance(v, dict) and ((v.get('k') == 'call' and v.get('recv') is not None and v.get('f') in ('into', 'clone', 'to_string', 'to_owned', 'as_str', 'cloned') and not v.get('args')) or v.get('k') in ('ref', 'deref', 'paren')):
+                v = vt.unvar(v['recv'] if v.get('k') == 'call' else v.get('v'))
+            return v
+        looked_up = any(is_lookup(x) for L in ('calls', 'lets', 'returns') for it in G.get(L, []) for x in vt.walk(it if L != 'calls' else dict(it, k='call'))) or any(is_lookup(x) for x in vt.walk(G.get('tail') or {}))
+        hit = special.outcomes(G, [special.OptSpec(is_lookup, True)]) if looked_up else []
+        miss = special.outcomes(G, [special.OptSpec(is_lookup, False)]) if looked_up else []
+        hit_vals = [plain(o) for o in hit]
+        mapped_ok = [isinstance(h, dict) and h.get('k') == 'payload' and str(h.get('variant', '')).split('::')[-1] == 'Some' and is_lookup(vt.unvar(h.get('of'))) for h in hit_vals]
+        first_is_map = looked_up and bool(hit) and bool(miss) and all(mapped_ok)
+        rep.check(looked_up and bool(hit) and bool(miss), 'T4', f'{be}:{f["name"]}:map-first', 'type map consulted before anything else', f"{be}: {f['qual']} does not start by looking `{base}` up in the type map — a configured mapping can be bypassed", site)
+        if looked_up and hit and miss:
+            bad_h = [vt.show(h)[:60] for h, ok_ in zip(hit_vals, mapped_ok) if not ok_]
+            rep.check(not bad_h, 'T4', f'{be}:{f["name"]}:mapped-returned', 'mapped name returned', f"{be}: {f['qual']} finds a mapping but returns `{bad_h[0] if bad_h else ''}`", site)
+        t = None
+        if miss:
+            unwrapped = [vt.unvar(o) for o in miss]
+            unwrapped = [(vt.unvar(o['args'][0]) if isinstance(o, dict) and o.get('k') == 'call' and o.get('recv') is None and str(o.get('f')) == 'Ok' and o.get('args') else o) for o in unwrapped]
+            t = {'k': 'cond', 'c': {'k': 'unknown'}, 't': {'k': 'unknown'}, 'e': unwrapped[0] if len(unwrapped) == 1 else {'k': 'alt', 'alts': unwrapped}}
         if f['name'] == 'format_generic_type':
             ok = any(c.get('f') == 'format_simple_type' and vt.show(vt.strip(c['args'][0])) == base for c in f['calls'])
             rep.check(ok, 'T5', f'{be}:format_generic_type:base-through-simple', 'base name formatted by format_simple_type', f"{be}: format_generic_type does not route the base name through format_simple_type (prefix / mapping discipline skipped for generic types)", site)
             ok = any(c.get('f') == 'format_type' for c in f['calls'])
             rep.check(ok, 'T5', f'{be}:format_generic_type:parameters', 'parameters formatted recursively', f"{be}: format_generic_type does not format its parameters with format_type", site)
         if f['name'] == 'format_simple_type' and f.get('self_ty') in ('Kotlin', 'Swift'):
-            else_v = t['e'] if first_is_map else t
+            else_v = t['e'] if t is not None else f['tail']
             gkey = None
             vocab = sorted(guards.vocabulary(T, [x['c'] for x in vt.walk(else_v) if x.get('k') == 'cond']))
             outs = {}
@@ -463,9 +480,24 @@ def t45(ctx, rep, T):
         struct, file = emit.BACKENDS[be]
         f = ctx.fn(f'{struct}::format_special_type', file=file)
         sp = f['params'][1]['name']
-        early = [r for r in f['returns'] if any(fr.get('k') == 'if' and not fr.get('neg') and isinstance(fr['c'], dict) and fr['c'].get('k') == 'iflet' and 'get(' in vt.show(fr['c']['scrut']) and sp in vt.show(fr['c']['scrut']) for fr in r['guard'])]
-        first_match_line = min([m['line'] for m in f['matches'] if any(v.startswith('SpecialRustType::') for a in m['arms'] for v in a['variants'])] or [10 ** 9])
-        ok = bool(early) and all(r['line'] < first_match_line for r in early)
+        G = ctx.x(f)
+
+        def is_lookup(v, sp=sp):
+            return v.get('k') == 'call' and v.get('f') == 'get' and v.get('recv') is not None and len(v.get('args', [])) == 1 and \
+                re.fullmatch(r'&?\(?&?self\.(type_map\(\)|type_mappings)\)?', vt.show(v['recv']).replace(' ', '')) is not None and \
+                re.fullmatch(rf'&?\(?&?{re.escape(sp)}\)?\.to_string\(\)(\.as_str\(\))?', vt.show(v['args'][0]).replace(' ', '')) is not None
+        hit = special.outcomes(G, [special.OptSpec(is_lookup, True)])
+
+        def plain(v):
+            v = vt.unvar(v)
+            if isinstance(v, dict) and v.get('k') == 'call' and v.get('recv') is None and str(v.get('f')) == 'Ok' and v.get('args'):
+                v = vt.unvar(v['args'][0])
+            while isinstance(v, dict) and ((v.get('k') == 'call' and v.get('recv') is not None and v.get('f') in ('into', 'clone', 'to_string', 'to_owned', 'as_str', 'cloned') and not v.get('args')) or v.get('k') in ('ref', 'deref', 'paren')):
+                v = vt.unvar(v['recv'] if v.get('k') == 'call' else v.get('v'))
+            return v
+        hv = [plain(o) for o in hit]
+        # under "the printed form is a key of the map" the function yields the mapped name and nothing else
+        ok = bool(hit) and all(isinstance(h, dict) and h.get('k') == 'payload' and str(h.get('variant', '')).split('::')[-1] == 'Some' and is_lookup(vt.unvar(h.get('of'))) for h in hv)
         rep.check(ok, 'T4', f'{be}:format_special_type:map-first', 'container/primitive mapping consulted first', f"{be}: format_special_type does not look the printed Rust form of the type up in the type map before translating it — mappings such as \"Vec<u8>\" are not honoured at every position", {'file': f['file'], 'line': f['line']})
 
 
